@@ -275,13 +275,19 @@ def replay(case):
     acc = Acc()
     if "tape" not in case:
         return run_item(dict(layer="tlc", E0=case["constants"][0], E=case["constants"][1], NB=case["constants"][2]))
-    cfg = {k: case[k] for k in ("kind", "e0", "E", "N", "pb", "cbl", "timer")}
-    viols, tr, nev = run_fit(cfg, T.Tape(case["tape"]), case.get("pre", False))
+    if "constants" in case:
+        e0, E, nb = case["constants"]
+        cfg = dict(kind="positive", e0=e0, E=E, N=nb, pb=1, cbl="SR", timer=False)
+        pre = len(case.get("trace", [1])) == 0
+    else:
+        cfg = {k: case[k] for k in ("kind", "e0", "E", "N", "pb", "cbl", "timer")}
+        pre = case.get("pre", False)
+    viols, tr, nev = run_fit(cfg, T.Tape(case["tape"]), pre)
     acc.ev(1)
     for sig, detail in viols:
         acc.viol(sig, case, detail=detail)
     if "trace" in case and tr is not None:
-        want = tuple((tuple(e), bool(s)) for e, s in case["trace"])
+        want = tuple((tuple(e), bool(s_)) for e, s_ in case["trace"])
         if tr != want:
             acc.viol("protocol:fit-diverges-from-tlc-behaviour", case, observed=tr, expected=want)
     return acc
